@@ -1,8 +1,112 @@
-(* C05 -- short dimension names: exactly when do two swept keys get the same name? *)
-From Coq Require Import ZArith List Bool Arith String Lia.
+(* C05 -- dimension names (observation.py _get_short_dimension_names_new, misc.py
+   _get_short_name_with_model): distinct swept keys get distinct names, every key gets a name, and a
+   key whose last component is not shared keeps that component as its name. *)
+From Coq Require Import ZArith List Bool Arith String Ascii Lia.
 From PyxelV Require Import Model.ParamSpace.
 Import ListNotations.
 Local Notation length := List.length (only parsing).
+Local Open Scope string_scope.
+
+(* ------------------------------------------------------------------------------------ strings *)
+
+Fixpoint nodot (s : string) : Prop :=
+  match s with
+  | EmptyString => True
+  | String c s' => c <> "."%char /\ nodot s'
+  end.
+
+Lemma append_nil_r' : forall s : string, s ++ "" = s.
+Proof. induction s; simpl; congruence. Qed.
+
+Lemma append_assoc' : forall a b c : string, (a ++ b) ++ c = a ++ (b ++ c).
+Proof. induction a; intros; simpl; congruence. Qed.
+
+Lemma nodot_app : forall a b, nodot a -> nodot b -> nodot (a ++ b).
+Proof. induction a; simpl; intros; tauto || (destruct H; split; auto). Qed.
+
+Lemma aux_nodot_prefix : forall a s cur, nodot a -> split_dot_aux (a ++ s) cur = split_dot_aux s (cur ++ a).
+Proof.
+  induction a as [|c a IH]; intros s cur H; simpl.
+  - now rewrite append_nil_r'.
+  - destruct H as [Hc Ha]. destruct (Ascii.eqb c ".") eqn:E.
+    + apply Ascii.eqb_eq in E. contradiction.
+    + rewrite IH by assumption. rewrite append_assoc'. reflexivity.
+Qed.
+
+Lemma split_dot_nodot : forall s, nodot s -> split_dot s = [s].
+Proof.
+  intros s H. unfold split_dot. rewrite <- (append_nil_r' s) at 1.
+  rewrite aux_nodot_prefix by assumption. reflexivity.
+Qed.
+
+Lemma split_dot_two : forall m p, nodot m -> nodot p -> split_dot (m ++ "." ++ p) = [m; p].
+Proof.
+  intros m p Hm Hp. unfold split_dot. rewrite aux_nodot_prefix by assumption. simpl.
+  change (split_dot_aux p "") with (split_dot p). now rewrite split_dot_nodot.
+Qed.
+
+Lemma aux_all_nodot : forall s cur, nodot cur -> Forall nodot (split_dot_aux s cur).
+Proof.
+  induction s as [|c s IH]; intros cur H; simpl.
+  - constructor; auto.
+  - destruct (Ascii.eqb c ".") eqn:E.
+    + constructor; auto. apply IH. exact I.
+    + apply IH. apply nodot_app; auto. simpl. split; auto.
+      intros ->. rewrite Ascii.eqb_refl in E. discriminate.
+Qed.
+
+Lemma split_dot_all_nodot : forall s, Forall nodot (split_dot s).
+Proof. intros. apply aux_all_nodot. exact I. Qed.
+
+Lemma last_Forall : forall {A} (P : A -> Prop) l d, P d -> Forall P l -> P (last l d).
+Proof.
+  induction l as [|a t IH]; intros d Hd H; simpl; auto.
+  inversion H; subst. destruct t; auto.
+Qed.
+
+Lemma readout_key_parts :
+  split_dot "observation.readout.times" = ["observation"; "readout"; "times"].
+Proof. reflexivity. Qed.
+
+Lemma short_of_nodot : forall k, nodot (short_of k).
+Proof.
+  intros k. unfold short_of. destruct (String.eqb k _).
+  - simpl. repeat split; discriminate.
+  - apply last_Forall; [exact I | apply split_dot_all_nodot].
+Qed.
+
+(* a key without dots is its own short name *)
+Lemma short_of_of_nodot : forall k, nodot k -> short_of k = k.
+Proof.
+  intros k H. unfold short_of. destruct (String.eqb k _) eqn:E.
+  - apply String.eqb_eq in E. subst k. simpl in H. decompose [and] H. congruence.
+  - rewrite split_dot_nodot by assumption. reflexivity.
+Qed.
+
+(* a key with five components: the components are dot-free and the short name is the fifth *)
+Lemma five_parts : forall k a b m d p,
+  split_dot k = [a; b; m; d; p] -> nodot m /\ nodot p /\ short_of k = p.
+Proof.
+  intros k a b m d p H.
+  pose proof (split_dot_all_nodot k) as F. rewrite H in F.
+  repeat match goal with F : Forall _ (_ :: _) |- _ => inversion F; subst; clear F end.
+  repeat split; auto.
+  unfold short_of. destruct (String.eqb k _) eqn:E.
+  - apply String.eqb_eq in E. subst k. rewrite readout_key_parts in H. discriminate.
+  - rewrite H. reflexivity.
+Qed.
+
+(* "<model>.<argument>" read as a key has two components and the argument as its short name *)
+Lemma short_of_model_dot_arg : forall m p, nodot m -> nodot p ->
+  split_dot (m ++ "." ++ p) = [m; p] /\ short_of (m ++ "." ++ p) = p.
+Proof.
+  intros m p Hm Hp. pose proof (split_dot_two m p Hm Hp) as S. split; auto.
+  unfold short_of. destruct (String.eqb _ _) eqn:E.
+  - apply String.eqb_eq in E. rewrite E in S. rewrite readout_key_parts in S. discriminate.
+  - rewrite S. reflexivity.
+Qed.
+
+(* ------------------------------------------------------------------------------------ counting *)
 
 Lemma count_ge1 : forall l j s, nth_error l j = Some s -> 1 <= count_str s l.
 Proof.
@@ -21,108 +125,230 @@ Proof.
   - assert (2 <= count_str s t) by (apply (IH i' j' s); auto). lia.
 Qed.
 
-Lemma with_model_short : forall k m p, with_model k = Some (WithModel m p) -> short_of k = p.
-Proof.
-  intros k m p H. unfold with_model in H. unfold short_of.
-  destruct (String.eqb k "observation.readout.times") eqn:E.
-  - apply String.eqb_eq in E. subst k. vm_compute in H. discriminate.
-  - destruct (split_dot k) as [|a [|b [|c [|d [|e [|f r]]]]]]; try discriminate.
-    inversion H; subst. reflexivity.
-Qed.
-
-Lemma with_model_shape : forall k d, with_model k = Some d -> exists m p, d = WithModel m p.
-Proof.
-  intros k d H. unfold with_model in H.
-  destruct (split_dot k) as [|a [|b [|c [|x [|e [|f r]]]]]]; try discriminate.
-  inversion H; eauto.
-Qed.
-
-Lemma all_some_pairs_nth : forall {A B} (f : A -> A * option B) (g : A -> option B) keys m,
-  (forall k, f k = (k, g k)) ->
-  all_some_pairs (map f keys) = Some m ->
+Lemma all_some_pairs_nth : forall {A B} (g : A -> option B) keys m,
+  all_some_pairs (map (fun k => (k, g k)) keys) = Some m ->
   forall i k d, nth_error m i = Some (k, d) -> nth_error keys i = Some k /\ g k = Some d.
 Proof.
-  intros A B f g keys. induction keys as [|k0 keys IH]; intros m Hf H i k d Hi; simpl in H.
+  intros A B g keys. induction keys as [|k0 keys IH]; intros m H i k d Hi; simpl in H.
   - inversion H; subst. destruct i; discriminate.
-  - rewrite Hf in H. destruct (g k0) eqn:E; try discriminate.
-    destruct (all_some_pairs (map f keys)) eqn:E2; try discriminate. simpl in H. inversion H; subst.
+  - destruct (g k0) eqn:E; try discriminate.
+    destruct (all_some_pairs _) eqn:E2; try discriminate. simpl in H. inversion H; subst.
     destruct i; simpl in *.
     + inversion Hi; subst; auto.
     + eapply IH; eauto.
 Qed.
 
-Definition name_fn (keys : list string) (k : string) : option dname :=
-  if Nat.ltb 1 (count_str (short_of k) (map short_of keys)) then with_model k
-  else Some (Short (short_of k)).
-
-Lemma dim_names_nth : forall keys m,
-  dim_names keys = Some m ->
-  forall i k d, nth_error m i = Some (k, d) -> nth_error keys i = Some k /\ name_fn keys k = Some d.
+Lemma all_some_pairs_fst : forall {A B} (g : A -> option B) keys m,
+  all_some_pairs (map (fun k => (k, g k)) keys) = Some m -> map fst m = keys.
 Proof.
-  intros keys m H. unfold dim_names in H.
-  eapply all_some_pairs_nth; [|exact H].
-  intros k. unfold name_fn. simpl. destruct (Nat.ltb 1 _); reflexivity.
+  intros A B g keys. induction keys as [|k0 keys IH]; intros m H; simpl in H.
+  - inversion H; reflexivity.
+  - destruct (g k0); try discriminate. destruct (all_some_pairs _) eqn:E; try discriminate.
+    simpl in H. inversion H; subst. simpl. f_equal. apply IH. reflexivity.
 Qed.
 
-(* Two swept keys (at different positions of the key list) receive the same dimension name exactly
-   when both have five dotted components and agree on the 3rd (model name) and the 5th (argument
-   name) -- whatever their model group (2nd component) is. *)
-Theorem dim_names_collide_iff : forall keys m,
-  dim_names keys = Some m ->
-  forall i j ki kj di dj, i <> j ->
-    nth_error m i = Some (ki, di) -> nth_error m j = Some (kj, dj) ->
-    (di = dj <-> (with_model ki = with_model kj /\ with_model ki <> None)).
+Lemma all_some_pairs_total : forall {A B} (g : A -> option B) keys,
+  (forall k, In k keys -> g k <> None) ->
+  exists m, all_some_pairs (map (fun k => (k, g k)) keys) = Some m.
 Proof.
-  intros keys m H i j ki kj di dj Hij Hi Hj.
-  destruct (dim_names_nth _ _ H _ _ _ Hi) as [Ki Ni].
-  destruct (dim_names_nth _ _ H _ _ _ Hj) as [Kj Nj].
+  intros A B g keys. induction keys as [|k0 keys IH]; intros H; simpl.
+  - eauto.
+  - destruct (g k0) eqn:E; [|exfalso; apply (H k0); simpl; auto].
+    destruct IH as [m Hm]; [intros; apply H; simpl; auto|]. rewrite Hm. simpl. eauto.
+Qed.
+
+(* ------------------------------------------------------------------------------------ the name table *)
+
+Lemma dim_names2_nth : forall c keys m,
+  dim_names2 c keys = Some m ->
+  forall i k d, nth_error m i = Some (k, d) ->
+    nth_error keys i = Some k /\ name2 c (map short_of keys) k = Some d.
+Proof. intros c keys m H. unfold dim_names2 in H. eapply all_some_pairs_nth; exact H. Qed.
+
+Lemma with_model_total : forall c k, cf_name_fallback_full c = true -> with_model c k <> None.
+Proof.
+  intros c k H. unfold with_model. rewrite H.
+  destruct (split_dot k) as [|a [|b [|m [|d [|p [|f r]]]]]]; discriminate.
+Qed.
+
+(* Every key gets a name once keys without five components keep their full key. *)
+Theorem dim_names_total : forall c keys,
+  cf_name_fallback_full c = true ->
+  exists m, dim_names c keys = Some m /\ map fst m = keys.
+Proof.
+  intros c keys H. unfold dim_names.
+  destruct (all_some_pairs_total (name2 c (map short_of keys)) keys) as [m Hm].
+  - intros k _. unfold name2. destruct (Nat.ltb _ _); [now apply with_model_total | discriminate].
+  - unfold dim_names2. rewrite Hm. simpl. eexists; split; eauto.
+    pose proof (all_some_pairs_fst _ _ _ Hm) as F.
+    unfold stage3. destruct (cf_name_stage3 c); auto.
+    rewrite map_map. simpl. rewrite <- F. apply map_ext. reflexivity.
+Qed.
+
+Lemma dim_names_fst : forall c keys m, dim_names c keys = Some m -> map fst m = keys.
+Proof.
+  intros c keys m H. unfold dim_names in H. destruct (dim_names2 c keys) as [m2|] eqn:E; try discriminate.
+  simpl in H. inversion H; subst. unfold dim_names2 in E. pose proof (all_some_pairs_fst _ _ _ E) as F.
+  unfold stage3. destruct (cf_name_stage3 c); auto.
+  rewrite map_map. simpl. rewrite <- F. apply map_ext. reflexivity.
+Qed.
+
+(* the core of injectivity: a key can only be equal to the second-stage name of ANOTHER key if that
+   name is shared in the second-stage table (and is therefore replaced in the third stage) *)
+Lemma key_eq_other_name : forall c keys m2 i j ki kj ni nj,
+  cf_name_fallback_full c = true ->
+  dim_names2 c keys = Some m2 ->
+  i <> j -> ki <> kj ->
+  nth_error m2 i = Some (ki, ni) -> nth_error m2 j = Some (kj, nj) ->
+  ki = nj ->
+  2 <= count_str nj (map snd m2).
+Proof.
+  intros c keys m2 i j ki kj ni nj Hf H Hij Hk Hi Hj E.
+  destruct (dim_names2_nth _ _ _ H _ _ _ Hi) as [Ki Ni].
+  destruct (dim_names2_nth _ _ _ H _ _ _ Hj) as [Kj Nj].
   assert (Si : nth_error (map short_of keys) i = Some (short_of ki)) by (rewrite nth_error_map, Ki; auto).
   assert (Sj : nth_error (map short_of keys) j = Some (short_of kj)) by (rewrite nth_error_map, Kj; auto).
-  unfold name_fn in Ni, Nj.
-  split.
-  - intros <-.
-    destruct (Nat.ltb 1 (count_str (short_of ki) _)) eqn:Ei.
-    + destruct (with_model_shape _ _ Ni) as (mm & pp & ->).
-      destruct (Nat.ltb 1 (count_str (short_of kj) _)) eqn:Ej; [|discriminate].
-      split; congruence.
-    + inversion Ni; subst.
-      destruct (Nat.ltb 1 (count_str (short_of kj) _)) eqn:Ej.
-      * destruct (with_model_shape _ _ Nj) as (mm & pp & ?). discriminate.
-      * inversion Nj as [E]. rewrite E in Sj.
-        assert (2 <= count_str (short_of ki) (map short_of keys)) by (eapply count_ge2; eauto).
-        apply Nat.ltb_ge in Ei. lia.
-  - intros [E Hn].
-    destruct (with_model ki) as [d|] eqn:Wi; [|congruence].
-    destruct (with_model_shape _ _ Wi) as (mm & pp & ->).
-    assert (Hsi : short_of ki = pp) by (eapply with_model_short; eauto).
-    assert (Hsj : short_of kj = pp) by (eapply with_model_short; eauto).
-    rewrite Hsi in *. rewrite Hsj in *.
-    assert (2 <= count_str pp (map short_of keys)) by (eapply count_ge2; eauto).
-    assert (Nat.ltb 1 (count_str pp (map short_of keys)) = true) by (apply Nat.ltb_lt; lia).
-    rewrite H1 in Ni, Nj. congruence.
+  assert (Mi : nth_error (map snd m2) i = Some ni) by (rewrite nth_error_map, Hi; auto).
+  assert (Mj : nth_error (map snd m2) j = Some nj) by (rewrite nth_error_map, Hj; auto).
+  unfold name2 in Nj.
+  destruct (Nat.ltb 1 (count_str (short_of kj) (map short_of keys))) eqn:Dj.
+  - (* the short name of kj is shared: nj comes from _get_short_name_with_model *)
+    unfold with_model in Nj.
+    destruct (split_dot kj) as [|a [|b [|m [|d [|p [|f r]]]]]] eqn:Sp;
+      try (rewrite Hf in Nj; inversion Nj; congruence).
+    assert (Enj : nj = m ++ "." ++ p) by congruence.
+    destruct (five_parts _ _ _ _ _ _ Sp) as (Hm & Hp & Hs).
+    destruct (short_of_model_dot_arg m p Hm Hp) as [S2 Sh2].
+    assert (Eki : ki = m ++ "." ++ p) by congruence.
+    assert (Ski : short_of ki = short_of kj) by (rewrite Eki, Sh2, Hs; reflexivity).
+    rewrite Ski in Si.
+    assert (2 <= count_str (short_of kj) (map short_of keys)) by (eapply count_ge2; eauto).
+    unfold name2 in Ni. rewrite Ski in Ni. rewrite Dj in Ni.
+    unfold with_model in Ni. rewrite Eki, S2, Hf in Ni.
+    assert (Eni : ni = nj) by congruence.
+    rewrite Eni in Mi.
+    eapply count_ge2; eauto.
+  - (* the short name of kj is not shared: nj = short_of kj, so ki has no dots and the same short name *)
+    inversion Nj as [Enj]. exfalso.
+    assert (Hn : nodot ki) by (rewrite E, <- Enj; apply short_of_nodot).
+    assert (Ski : short_of ki = short_of kj) by (rewrite short_of_of_nodot by assumption; congruence).
+    rewrite Ski in Si.
+    assert (2 <= count_str (short_of kj) (map short_of keys)) by (eapply count_ge2; eauto).
+    apply Nat.ltb_ge in Dj. lia.
 Qed.
 
-(* The name table is undefined (ValueError: not enough values to unpack) exactly when some key whose
-   short name is shared does not have five components. *)
-Theorem dim_names_defined_iff : forall keys,
-  dim_names keys = None <->
-  exists k, In k keys /\ 2 <= count_str (short_of k) (map short_of keys) /\ with_model k = None.
+Lemma NoDup_keys_nth : forall (keys : list string) i j ki kj,
+  NoDup keys -> i <> j -> nth_error keys i = Some ki -> nth_error keys j = Some kj -> ki <> kj.
 Proof.
-  intros keys. unfold dim_names. generalize (map short_of keys) as shorts. intros shorts.
-  induction keys as [|k keys IH]; simpl.
-  - split; [discriminate|]. intros (k & [] & _).
-  - destruct (Nat.ltb 1 (count_str (short_of k) shorts)) eqn:E.
-    + destruct (with_model k) eqn:W.
-      * destruct (all_some_pairs _) eqn:A; simpl.
-        -- split; [discriminate|]. intros (k' & [<-|Hin] & Hc & Hw); [congruence|].
-           destruct IH as [_ IH]. assert (X : Some l = None) by (apply IH; eauto). discriminate.
-        -- split; auto. intros _. destruct IH as [IH _]. destruct (IH eq_refl) as (k' & Hin & Hr).
-           exists k'. split; auto.
-      * split; auto. intros _. exists k. apply Nat.ltb_lt in E. repeat split; auto.
-    + destruct (all_some_pairs _) eqn:A; simpl.
-      * split; [discriminate|]. intros (k' & [<-|Hin] & Hc & Hw).
-        -- apply Nat.ltb_ge in E. lia.
-        -- destruct IH as [_ IH]. assert (X : Some l = None) by (apply IH; eauto). discriminate.
-      * split; auto. intros _. destruct IH as [IH _]. destruct (IH eq_refl) as (k' & Hin & Hr).
-        exists k'. split; auto.
+  intros keys i j ki kj N Hij Hi Hj E. subst kj.
+  apply Hij. eapply (proj1 (NoDup_nth_error keys) N); [|congruence].
+  apply nth_error_Some. congruence.
 Qed.
+
+(* Distinct swept keys get distinct dimension names (repaired code: both flags set). *)
+Theorem dim_names_inj : forall c keys m,
+  cf_name_fallback_full c = true -> cf_name_stage3 c = true ->
+  NoDup keys -> dim_names c keys = Some m -> NoDup (map snd m).
+Proof.
+  intros c keys m Hf H3 N H. unfold dim_names in H.
+  destruct (dim_names2 c keys) as [m2|] eqn:E2; try discriminate. simpl in H. inversion H; subst m. clear H.
+  unfold stage3. rewrite H3.
+  apply NoDup_nth_error. intros i j Hi Hij.
+  destruct (Nat.eq_dec i j) as [|Hne]; auto. exfalso.
+  rewrite !nth_error_map in Hij.
+  rewrite map_length, map_length in Hi.
+  destruct (nth_error m2 i) as [[ki ni]|] eqn:Ei; [|apply nth_error_None in Ei; lia].
+  destruct (nth_error m2 j) as [[kj nj]|] eqn:Ej; [|discriminate].
+  simpl in Hij.
+  destruct (dim_names2_nth _ _ _ E2 _ _ _ Ei) as [Ki _].
+  destruct (dim_names2_nth _ _ _ E2 _ _ _ Ej) as [Kj _].
+  assert (Hk : ki <> kj) by (eapply NoDup_keys_nth; eauto).
+  assert (Mi : nth_error (map snd m2) i = Some ni) by (rewrite nth_error_map, Ei; auto).
+  assert (Mj : nth_error (map snd m2) j = Some nj) by (rewrite nth_error_map, Ej; auto).
+  destruct (Nat.ltb 1 (count_str ni (map snd m2))) eqn:Ri;
+  destruct (Nat.ltb 1 (count_str nj (map snd m2))) eqn:Rj; inversion Hij as [E].
+  - congruence.
+  - (* ki = nj, nj kept *)
+    assert (2 <= count_str nj (map snd m2)) by (eapply key_eq_other_name with (i := i) (j := j); eauto).
+    apply Nat.ltb_ge in Rj. lia.
+  - assert (2 <= count_str ni (map snd m2))
+      by (eapply key_eq_other_name with (i := j) (j := i) (ki := kj) (kj := ki); eauto; congruence).
+    apply Nat.ltb_ge in Ri. lia.
+  - rewrite E in Mi.
+    assert (2 <= count_str nj (map snd m2)) by (eapply count_ge2; eauto).
+    apply Nat.ltb_ge in Rj. lia.
+Qed.
+
+(* A key whose last component is not shared keeps it as its name (existing results keep their
+   coordinate names). *)
+Theorem dim_names_short_kept : forall c keys m k n,
+  cf_name_fallback_full c = true ->
+  NoDup keys -> dim_names c keys = Some m -> In (k, n) m ->
+  count_str (short_of k) (map short_of keys) = 1 -> n = short_of k.
+Proof.
+  intros c keys m k n Hf N H Hin Hc. unfold dim_names in H.
+  destruct (dim_names2 c keys) as [m2|] eqn:E2; try discriminate. simpl in H. inversion H; subst m. clear H.
+  unfold stage3 in Hin. destruct (cf_name_stage3 c) eqn:H3.
+  - apply in_map_iff in Hin. destruct Hin as ([k' n'] & Heq & Hin). simpl in Heq. inversion Heq; subst k'. clear Heq.
+    apply In_nth_error in Hin. destruct Hin as [i Ei].
+    destruct (dim_names2_nth _ _ _ E2 _ _ _ Ei) as [Ki Ni].
+    unfold name2 in Ni. rewrite Hc in Ni. simpl in Ni. inversion Ni; subst n'.
+    destruct (Nat.ltb 1 (count_str (short_of k) (map snd m2))) eqn:R; auto.
+    (* the short name is shared in the second-stage table: impossible *)
+    exfalso. apply Nat.ltb_lt in R.
+    assert (Mi : nth_error (map snd m2) i = Some (short_of k)) by (rewrite nth_error_map, Ei; auto).
+    (* find another position with the same name *)
+    assert (exists j kj, j <> i /\ nth_error m2 j = Some (kj, short_of k)) as (j & kj & Hji & Ej).
+    { clear - R Mi. revert i Mi R. generalize (short_of k) as s. induction m2 as [|[a b] t IH]; intros s i Mi R.
+      - destruct i; discriminate.
+      - simpl in R. destruct i; simpl in Mi.
+        + inversion Mi; subst b. rewrite String.eqb_refl in R.
+          assert (1 <= count_str s (map snd t)) by lia.
+          assert (exists j, nth_error (map snd t) j = Some s) as [j Hj].
+          { clear - H. induction t as [|[a' b'] t IH]; simpl in *; [lia|].
+            destruct (String.eqb s b') eqn:E.
+            - apply String.eqb_eq in E. subst. exists 0. reflexivity.
+            - destruct IH as [j Hj]; [lia|]. exists (S j). exact Hj. }
+          rewrite nth_error_map in Hj. destruct (nth_error t j) as [[kj nj]|] eqn:Ej; [|discriminate].
+          simpl in Hj. inversion Hj; subst nj. exists (S j), kj. split; [lia|exact Ej].
+        + destruct (String.eqb s b) eqn:E.
+          * apply String.eqb_eq in E. subst b. exists 0, a. split; [lia|reflexivity].
+          * destruct (IH s i Mi) as (j & kj & Hji & Ej); [simpl in R; lia|].
+            exists (S j), kj. split; [lia|exact Ej]. }
+    destruct (dim_names2_nth _ _ _ E2 _ _ _ Ej) as [Kj Nj].
+    assert (Hk : kj <> k) by (eapply NoDup_keys_nth; eauto).
+    assert (Si : nth_error (map short_of keys) i = Some (short_of k)) by (rewrite nth_error_map, Ki; auto).
+    assert (Sj : nth_error (map short_of keys) j = Some (short_of kj)) by (rewrite nth_error_map, Kj; auto).
+    unfold name2 in Nj.
+    destruct (Nat.ltb 1 (count_str (short_of kj) (map short_of keys))) eqn:Dj.
+    + unfold with_model in Nj.
+      destruct (split_dot kj) as [|a [|b [|mm [|d [|p [|f r]]]]]] eqn:Sp;
+        try (rewrite Hf in Nj; inversion Nj as [Ekj];
+             (* kj = short_of k: kj has no dots, so it is its own short name, shared with k *)
+             assert (Hn : nodot kj) by (rewrite Ekj; apply short_of_nodot);
+             assert (short_of kj = short_of k) by (rewrite short_of_of_nodot by assumption; exact Ekj);
+             rewrite H in Sj;
+             assert (2 <= count_str (short_of k) (map short_of keys)) by (eapply count_ge2; eauto); lia).
+      (* five components: the name m.p contains a dot, the short name does not *)
+      inversion Nj as [Enj]. destruct (five_parts _ _ _ _ _ _ Sp) as (Hm & Hp & _).
+      pose proof (short_of_nodot k) as Hn. rewrite <- Enj in Hn.
+      clear - Hn. induction mm; simpl in Hn; [destruct Hn as [Hn _]; congruence | destruct Hn; auto].
+    + inversion Nj as [Enj]. rewrite Enj in Sj.
+      assert (2 <= count_str (short_of k) (map short_of keys)) by (eapply count_ge2; eauto). lia.
+  - apply In_nth_error in Hin. destruct Hin as [i Ei].
+    destruct (dim_names2_nth _ _ _ E2 _ _ _ Ei) as [Ki Ni].
+    unfold name2 in Ni. rewrite Hc in Ni. simpl in Ni. inversion Ni; auto.
+Qed.
+
+(* The round-1 tree (neither flag): the names of two different keys can coincide (DESIGN F19) and
+   the table can be undefined; kept as executable facts about the model of the unrepaired rule. *)
+Lemma round1_collision :
+  option_map (map snd) (dim_names cfg_round1 ["pipeline.charge_collection.m1.arguments.a";
+                                               "pipeline.charge_measurement.m1.arguments.a"])
+  = Some ["m1.a"; "m1.a"].
+Proof. reflexivity. Qed.
+
+Lemma round1_undefined :
+  dim_names cfg_round1 ["detector.environment.temperature";
+                        "pipeline.charge_collection.m1.arguments.temperature"] = None.
+Proof. reflexivity. Qed.
